@@ -100,6 +100,11 @@ def structured_histories():
                 yield [["new"], ["set", 0, name, v2], ["convert", 0, pi], ["drop", 0], ["new"], ["convert", 1, pi],
                        ["convert", None, pi]]
                 yield [["churn", name, v2, 64], ["convert", None, pi], ["new"], ["convert", 0, pi]]
+                # two LIVE objects: the same value stored on both, one after the other; a value that travels a -> b -> a
+                yield [["new"], ["new"], ["set", 0, name, v2], ["set", 1, name, v2], ["convert", 0, pi], ["convert", 1, pi],
+                       ["convert", None, pi]]
+                yield [["new"], ["new"], ["set", 0, name, v1], ["set", 1, name, v2], ["set", 0, name, v2], ["convert", 0, pi],
+                       ["set", 1, name, v1], ["set", 1, name, v1], ["convert", 1, pi], ["convert", None, pi]]
                 yield [["new"], ["new"], ["set", 0, name, v2], ["set", 1, name, v2], ["drop", 0], ["drop", 1], ["convert", None, pi],
                        ["new"], ["new"], ["new"], ["convert", 2, pi], ["convert", 3, pi], ["convert", 4, pi]]
 
@@ -228,6 +233,8 @@ def run(chk, build, replay=None):
         [gen_history(rng) for _ in range(nrand)]
     if chk.tier == "thorough":
         hists += list(exhaustive_histories())
+    else:
+        hists += list(exhaustive_histories())[chk.seed % 4::4]
     answers = common.model_eval([hist_sexp(h) for h in hists])
     real = run_real(hists)
     ref = reference_texts()
